@@ -413,6 +413,84 @@ example : cpuReduce ([3, 1, 4, 1, 5] : List Int).length 0 (redFn 0 0 0 [3, 1, 4,
 theorem C23_local_init_counted_per_block :
     cpuReduce 2 5 (redFn 0 0 0 [1, 2]) (hostComb 0) = 128 * 5 + 3 := by decide +kernel
 
+/-- the full statement for a reduction with an initial value: the fold from that value -/
+def C23_reduce_init_full : Prop :=
+  ∀ (xs : List Int) (init : Int), cpuReduce xs.length init (redFn 0 0 0 xs) (hostComb 0) = xs.foldl (· + ·) init
+
+/-- F62: false, the initial value is folded into every block -/
+theorem C23_reduce_init_full_fails : ¬ C23_reduce_init_full := by
+  intro h
+  have := h [1, 2] 5
+  rw [show (([1, 2] : List Int).length : Int) = 2 from rfl, C23_local_init_counted_per_block] at this
+  revert this
+  decide
+
+/-- what is true instead: the identity as initial value (any list); for the idempotent reductions any
+    initial value is `C23_reduce_min` / `C23_reduce_max` -/
+theorem C23_reduce_init_partial (xs : List Int) :
+    cpuReduce xs.length 0 (redFn 0 0 0 xs) (hostComb 0) = xs.foldl (· + ·) 0 := C23_reduce_sum xs 0
+
+/-! ### (c') every / some / findIndex over the visited indices -/
+
+/-- `every` is the conjunction and `some` the disjunction over the visited indices (with `C23_map_visit`:
+    over all indices) -/
+theorem C23_every_some (vis : List Nat) (f : Nat → Bool) :
+    everyOf vis f = vis.all f ∧ (decide (findLast vis f ≥ 0) = vis.any f) := by
+  refine ⟨rfl, ?_⟩
+  rw [findLast_eq]
+  cases h : vis.reverse.find? f with
+  | some i =>
+    have := List.find?_some h
+    have hm : i ∈ vis := by simpa using List.mem_of_find?_eq_some h
+    have : vis.any f = true := List.any_eq_true.mpr ⟨i, hm, this⟩
+    simp [this]
+  | none =>
+    have hn : ∀ x ∈ vis, ¬ f x = true := by
+      intro x hx
+      exact List.find?_eq_none.mp h x (by simpa using hx)
+    have : vis.any f = false := by
+      rw [List.any_eq_false]; exact hn
+    simp [this]
+
+/-- the full statement for findIndex: the first match, as `std::find_if` -/
+def C23_find_full : Prop := ∀ (vis : List Nat) (f : Nat → Bool), findLast vis f = firstMatch vis f
+
+/-- F60: false — every match overwrites the result cell, the last one wins -/
+theorem C23_find_full_fails : ¬ C23_find_full := by
+  intro h
+  have := h [0, 1] (fun _ => true)
+  revert this
+  decide
+
+/-- the strongest true restriction: at most one matching element -/
+theorem C23_find_partial (vis : List Nat) (f : Nat → Bool) (h : countMatches vis f ≤ 1) :
+    findLast vis f = firstMatch vis f := by
+  rw [findLast_eq, reverse_find?_of_unique vis f h]
+  rfl
+
+/-- and in general the result is sound: -1 iff nothing matches, otherwise a visited matching index -/
+theorem C23_find_sound (vis : List Nat) (f : Nat → Bool) :
+    (findLast vis f = -1 ↔ ∀ i ∈ vis, f i = false) ∧
+    (∀ i : Nat, findLast vis f = (i : Int) → i ∈ vis ∧ f i = true) := by
+  rw [findLast_eq]
+  cases h : vis.reverse.find? f with
+  | some j =>
+    have hf := List.find?_some h
+    have hm : j ∈ vis := by simpa using List.mem_of_find?_eq_some h
+    refine ⟨⟨fun e => by simp at e, fun e => by rw [e j hm] at hf; cases hf⟩, ?_⟩
+    intro i e
+    have : j = i := by simp at e; omega
+    exact this ▸ ⟨hm, hf⟩
+  | none =>
+    have hn : ∀ x ∈ vis, ¬ f x = true := by
+      intro x hx
+      exact List.find?_eq_none.mp h x (by simpa using hx)
+    refine ⟨⟨fun _ i hi => by simpa using hn i hi, fun _ => rfl⟩, ?_⟩
+    intro i e
+    simp at e
+
+example : findLast [0, 1, 2, 3] (fun i => i % 2 == 1) = 3 ∧ firstMatch [0, 1, 2, 3] (fun i => i % 2 == 1) = 1 := by decide
+
 /-! ### (d) forLoop: the body runs exactly once per index tuple -/
 
 /-- membership: a tuple is visited iff every component is a value of its iteration -/
